@@ -320,6 +320,19 @@ def _run(tok):
     if op == "pk_addr":
         K = keys.PublicKey.parse(unhex(a[0]))
         return sx(_none_err(K.address(compressed=unbool(a[1]), testnet=unbool(a[2]), addr_type=a[3])))
+    if op == "pk_seq":
+        K = keys.PublicKey.parse(unhex(a[0]))          # ONE object for the whole sequence
+        outs = []
+        for r in a[1].split(","):
+            c, t, kind = r.split(":")
+            try:
+                if kind == "h160":
+                    outs.append(sx(K.h160(compressed=unbool(c)).hex()))
+                else:
+                    outs.append(sx(_none_err(K.address(compressed=unbool(c), testnet=unbool(t), addr_type=kind))))
+            except Exception:
+                outs.append("err")
+        return " ; ".join(outs)
     # C12
     if op == "bip85":
         nd = unnode(a[0])
@@ -334,6 +347,13 @@ def _run(tok):
     if op == "paranoia":
         w = make_wallet(a[0])
         return jsonS(cli.paranoia_mode(w.generate(account=int(a[1]), interval=(int(a[2]), int(a[3])))))
+    if op == "json_text":
+        w = make_wallet(a[0])
+        data = w.generate(account=int(a[1]), interval=(int(a[2]), int(a[3])))
+        return sx(w.json(data=data, indent=None if a[4] == "-" else int(a[4])))
+    if op == "json_loads":
+        import json
+        return jsonS(json.loads(unstr(a[0])))
     if op == "wasabi":
         import json
         w = make_wallet(a[0])
